@@ -9,6 +9,8 @@ package p2c
 //
 //   VERIF_C14_MODE=seq    sequential traces (every step validated)
 //   VERIF_C14_MODE=conc   8 goroutines per picker; only the quiescent end state is logged
+//   VERIF_C14_MODE=streak one backend fails every call, completions 1-5 ms apart (n = 1 and n = 3),
+//                         long enough for the "unhealthy after a bounded number of completions" clause
 //   VERIF_C14_MODE=stats  long 1 kHz runs with one dead backend; measured shares and pick gaps
 //                         are written as JSON (the thresholds live in checks/c14.py)
 
@@ -214,6 +216,43 @@ func c14SeqTrace(tr *kit.Tracer, id, n, ops int, seed int64) error {
 	return nil
 }
 
+// streak trace: connection 1 fails every call (after one acceptable completion), the others
+// succeed; every call completes 1-5 ms after it was picked, which is also at least 1 ms after the
+// previous completion.  Runs until connection 1 has completed `want` calls or `maxPicks` picks.
+func c14StreakTrace(tr *kit.Tracer, id, n, want, maxPicks int, seed int64) error {
+	rng := rand.New(rand.NewSource(seed))
+	cp, err := newC14Picker(n, seed^0x5eed)
+	if err != nil {
+		return err
+	}
+	tr.Emit(kit.M{"ev": "reset", "n": n, "id": id, "profile": "streak"})
+	done1 := 0
+	for k := 0; k < maxPicks && done1 < want; k++ {
+		start := cp.clock.Now()
+		res, err := cp.picker.Pick(balancer.PickInfo{FullMethodName: "/verif/C14", Ctx: context.Background()})
+		if err != nil {
+			return fmt.Errorf("Pick with %d ready connections failed: %v", n, err)
+		}
+		c := cp.byConn[res.SubConn]
+		tr.Emit(cp.proj(kit.M{"ev": "pick", "c": c, "t": cp.ms()}))
+		if c == 0 || res.Done == nil {
+			return nil
+		}
+		cp.clock.Advance(time.Duration(1+rng.Intn(5)) * time.Millisecond)
+		code := "nil"
+		if c == 1 {
+			if done1 > 0 {
+				code = []string{"DeadlineExceeded", "Internal", "Unavailable", "DataLoss", "Unimplemented"}[rng.Intn(5)]
+			}
+			done1++
+		}
+		lat := int64((cp.clock.Now() - start) / time.Microsecond)
+		res.Done(balancer.DoneInfo{Err: c14Err(code)})
+		tr.Emit(cp.proj(kit.M{"ev": "done", "c": c, "code": code, "lat": lat, "t": cp.ms()}))
+	}
+	return nil
+}
+
 // one concurrent run: g goroutines pick and complete on one picker while the clock moves; only
 // the quiescent end state is logged, with the driver's own counts and latency bounds
 func c14ConcTrace(tr *kit.Tracer, id, n, g, iters int, seed int64) error {
@@ -392,6 +431,21 @@ func TestVerifC14(t *testing.T) {
 			}
 			if err := c14ConcTrace(tr, id, sizes[id%len(sizes)], 8, iters, seed*1000003+int64(id)); err != nil {
 				t.Fatalf("concurrent run %d: %v", id, err)
+			}
+		}
+	case "streak":
+		tr, err := kit.NewTracer(out)
+		if err != nil {
+			t.Fatal(err)
+		}
+		defer tr.Close()
+		want := kit.EnvInt("VERIF_C14_STREAK", 22000)
+		for id, n := range []int{1, 3} {
+			if only >= 0 && id != only {
+				continue
+			}
+			if err := c14StreakTrace(tr, id, n, want, want*7/2, seed*1000003+int64(id)); err != nil {
+				t.Fatalf("streak trace %d: %v", id, err)
 			}
 		}
 	case "stats":
